@@ -76,6 +76,26 @@ def replay(case):
             return {"ok": False, "problems": [f"well-formed input rejected: {type(e).__name__}: {e}"]}
         dq = {w.qualified_name for w in d.disqualification}
         return {"ok": P + "no_data" in dq, "problems": [f"disqualifications {sorted(dq)}: no_data expected"]}
+    if case.get("kind") == "offhour":
+        # a complete year of daily readings stamped at `hour` local time, in one frame with hourly temperatures: nothing is missing, so no verdict
+        tz = case.get("tz", "America/Chicago")
+        hi = pd.date_range("2022-01-01", "2023-01-01", freq="h", tz=tz, inclusive="left")
+        temp = pd.Series(55 + 20 * np.sin(np.arange(len(hi)) / 1400.0), index=hi, name="temperature")
+        stamps = pd.DatetimeIndex([d + pd.Timedelta(hours=case["hour"]) for d in pd.date_range("2022-01-01", periods=365, freq="D", tz=tz)])
+        obs = pd.Series(np.nan, index=hi, name="observed")
+        obs.loc[stamps[stamps.isin(hi)]] = 30.0 + np.arange(int(stamps.isin(hi).sum())) % 7
+        cls = em.DailyReportingData if case["reporting"] else em.DailyBaselineData
+        try:
+            d = cls(pd.concat([obs, temp], axis=1), is_electricity_data=True)
+        except Exception as e:  # noqa
+            return {"ok": False, "problems": [f"well-formed input rejected: {type(e).__name__}: {e}"]}
+        got = {w.qualified_name for w in d.disqualification}
+        bad = []
+        if got:
+            bad.append(f"a complete year (daily readings at {case['hour']:02d}:00, hourly temperature) is disqualified: {sorted(x.replace(P, '') for x in got)}")
+        if abs(len(d.df) - 365) > 1:
+            bad.append(f"{len(d.df)} rows in the data object for 365 days of readings")
+        return {"ok": not bad, "problems": bad}
     obs, temp = build(case)
     cls = em.DailyReportingData if case["reporting"] else em.DailyBaselineData
     bad = []
@@ -249,6 +269,14 @@ def run(tier="quick", seed=0):
             r = {"ok": False, "problems": [f"harness exception {type(e).__name__}: {e}", traceback.format_exc()[-500:]]}
         b.case("C10.boundary", case, r["ok"], nontrivial_key=str(case), detail=r["problems"])
     # a baseline whose usage is entirely missing is accepted and reported as "no data"
+    for rep in (False, True):
+        for hour in (0, 9):
+            c = {"kind": "offhour", "reporting": rep, "hour": hour}
+            try:
+                r = replay(c)
+            except Exception as e:  # noqa
+                r = {"ok": False, "problems": [f"harness exception {type(e).__name__}: {e}"]}
+            b.case("C10.boundary", c, r["ok"], nontrivial_key=("offhour", rep, hour), detail=r["problems"])
     for entry in ("frame",):
         try:
             import opendsm.eemeter as em
